@@ -1,5 +1,7 @@
 import NitroVerif.Lemmas.ParseDocErase
 import NitroVerif.Lemmas.ParseDocTsErase
+import NitroVerif.Lemmas.ParseMoreDoc
+import NitroVerif.Lemmas.ParseMoreIface
 /-!
 # C07 — render ∘ parse for selections, selection sets, … up to whole documents
 
@@ -15,6 +17,12 @@ END of a pair is not a function of the construct alone (it may include the trivi
 where the rule call ends only up to `≤` (the builders never read those ends), and give every START position exactly:
 `wpSel`, `wpSels`, … are the constructs with each `Pos` replaced by the line/column of the first character of the
 corresponding token in the input.
+
+Third stage (at the end of each section): executable documents WITH `#import` statements and an optional final comment that
+is not terminated by a line break (`parse_render_operation_document_full`; `render_parse_import_statement`,
+`skip_over_final_comment`), type-system documents WITH the bare `interface I` forms
+(`parse_render_type_system_document_full`). `Ws` (Lemmas/ParseComment.lean) contains every comment that is visibly not an
+import statement, also those whose text begins with `import`.
 -/
 namespace NitroVerif.C07
 open NitroVerif.Peg NitroVerif.Build NitroVerif.Gen NitroVerif.Gql NitroVerif.ValueParse NitroVerif.TypeParse
@@ -132,6 +140,118 @@ example : rDoc (fun _ => []) (fun _ => true)
      .op { kind := .query, sel := [.spread "F" {} [] {}] }] =
     "query Q($v:Int!=1){a(x:$v)}fragment F on T{b}{...F}".toList := by decide
 
+/-! ### executable documents with `#import` statements and a final unterminated comment (third stage) -/
+
+/-- `render_parse_import_statement`: wherever the rendering `#` spaces `import` gap targets `from` gap "path" gap of a
+    well-formed import statement (`WFImp`: at least one target, each `*` or a valid name other than `from`; `sp off` spaces
+    after the `#`; arbitrary trivia `τ` after every token, a non-empty gap after `import` and after every name) occurs in an
+    input, followed by a token that does not begin with `"`:
+    * the `ExecutableDefinition` rule — `OperationDefinition` and `FragmentDefinition` are tried first and fail — succeeds
+      with one pair on which `build_executable_definition` returns the import definition: the targets with the true
+      position of every name, the path, the position of the `#`;
+    * the `COMMENT` rule FAILS there, i.e. the implicit skip stops in front of the statement instead of swallowing the line
+      as a comment: `COMMENT`'s negative lookahead `!ext_ImportStatementContent` finds the whole statement (the run proved
+      outside lookahead is transferred under the lookahead, `Peg.RunsRule.look`). -/
+theorem render_parse_import_statement (τ : Trivia) (hτ : ∀ q, Ws (τ q)) (sp : Nat → Nat) (i : ImportDef) (hwf : WFImp i)
+    (sep : Bool) (inp : List Char) (off : Nat) (X : List Char) (h : inp.drop off = rImp τ sp sep off i ++ X)
+    (hX : HeadNot (fun d => trivia d ∨ d = '"') X) (fuel bfuel : Nat)
+    (hf : B (rImp τ sp sep off i).length + 60 ≤ fuel) (hb : (rImp τ sp sep off i).length ≤ bfuel) :
+    (∃ e pair, Peg.run gList fuel R.ExecutableDefinition inp off .nonAtomic = some (e, [pair]) ∧
+      e ≤ off + (rImp τ sp sep off i).length ∧
+      buildExecutableDefinition (Ctx.spec inp) bfuel pair = .ok (.imp (wpImp τ sp inp off i))) ∧
+    Peg.run gList fuel R.COMMENT inp off .nonAtomic = none := by
+  have hd : inp.drop (off + (rImp τ sp sep off i).length) = X := drop_after h
+  have ht : Tok (At inp (off + (rImp τ sp sep off i).length)) := by
+    simp only [Tok, At]; rw [hd]; exact headNot_mono (fun _ h => Or.inl h) hX
+  obtain ⟨⟨pr, hr, _, hbld⟩, hcm⟩ := impT τ hτ sp i hwf (hasAt_of_drop h) (tail_of_tok ht)
+    (by rw [hd]; exact headNot_mono (fun _ h => Or.inr h) hX)
+  obtain ⟨e, hrun, hle⟩ := run_of_runsK hr (fuel := fuel) (by omega)
+  refine ⟨⟨e, pr, hrun, hle, hbld bfuel hb⟩, ?_⟩
+  obtain ⟨tr', h'⟩ := hcm {}
+  have := h' fuel (by omega)
+  simp only [At] at this
+  unfold Peg.run
+  rw [this]
+
+/-- the hypotheses are satisfiable: `#import A, * from "./f.graphql"` (one space after `import`, a comma after `A`) -/
+example : rImp (fun q => if q = 9 then [','] else []) (fun _ => 0) false 0
+      { targets := [some ("A", {}), none], path := "./f.graphql" } = "#import A,*from\"./f.graphql\"".toList := by decide
+
+/-- `skip_over_final_comment` (repaired grammar: `COMMENT = "#" … (NEWLINE | EOI)`): the implicit skip of a non-atomic rule,
+    started in front of ARBITRARY trivia `t` (`Ws`) that is followed by a final comment `#text` WITHOUT line terminator at the
+    very end of the input (`EofComment`: no line break in the text, visibly not an import statement), consumes all of it and
+    ends at the end of the input — for every depth bound linear in the text. -/
+theorem skip_over_final_comment (t : List Char) (hws : Ws t) (body : List Char) (hb : EofComment body) (p : Nat)
+    (fuel : Nat) (hf : t.length + body.length + 120 ≤ fuel) (tr : Tr) :
+    ∃ tr', doSkip gList fuel true .nonAtomic .none tr ⟨p, t ++ '#' :: body⟩ =
+      (tr', .ok ⟨p + t.length + 1 + body.length, []⟩ []) := by
+  let inp := List.replicate p 'x' ++ (t ++ '#' :: body)
+  have hdrop : inp.drop p = t ++ '#' :: body := by simp [inp]
+  have hg : HasAt inp p t := ⟨'#' :: body, hdrop⟩
+  have hE : inp.drop (p + t.length) = '#' :: body := by rw [← List.drop_drop, hdrop]; simp
+  have hT := tail_of_eofComment hE hb
+  have hs := hT.skip hg hws rfl
+  obtain ⟨tr', h'⟩ := hs tr
+  refine ⟨tr', ?_⟩
+  have := h' fuel (by omega)
+  have hend : inp.drop (p + t.length + 1 + body.length) = [] := by
+    have : inp.drop (p + t.length + ('#' :: body).length) = [] := by rw [← List.drop_drop, hE]; simp
+    have e : p + t.length + 1 + body.length = p + t.length + ('#' :: body).length := by simp; omega
+    rw [e]; exact this
+  simpa [At, hdrop, hend] using this
+
+/-- **`parse_render_operation_document_full`**: `parse_render_operation_document` with the remaining side conditions on the
+    SHAPE of the document removed — for EVERY non-empty list `doc` of well-formed operations, fragments AND `#import`
+    statements, in any order (`WFDefF`), every trivia assignment `τ` (`Ws`: whitespace, commas, BOM and comments — now
+    including comments whose text begins with `import` without being an import statement, `NotImportHead`), every choice
+    `sh` of the `{ … }` shorthand, every number `sp` of spaces after the `#` of an import statement, and optionally a FINAL
+    comment `#text` that is not terminated by a line break (`eof`; `EofComment`): the model of `parse_operation_document`
+    applied to the rendering returns exactly the document — import statements parse to the import definitions — every
+    position being the line/column of the first character of the corresponding token (`wpDocF`). The implicit skip stops
+    in front of every import statement (`render_parse_import_statement`) and runs over the final comment to the end of
+    the input (repaired grammar: `NEWLINE | EOI`). -/
+theorem parse_render_operation_document_full (τ : Trivia) (hτ : ∀ q, Ws (τ q)) (sh : Nat → Bool) (sp : Nat → Nat)
+    (doc : List ExecDef) (hne : doc ≠ []) (hwf : ∀ d ∈ doc, WFDefF d) (eof : Option (List Char))
+    (heof : ∀ b ∈ eof, EofComment b) :
+    parseOp (rDocF τ sh sp doc eof) = .ok (wpDocF τ sh sp (rDocF τ sh sp doc eof) doc) :=
+  parseOp_rDocF τ hτ sh sp doc hne hwf eof heof
+
+/-- … in the terms of the property: the document returned differs from `doc` only in positions -/
+theorem parse_render_operation_document_full_erase (τ : Trivia) (hτ : ∀ q, Ws (τ q)) (sh : Nat → Bool) (sp : Nat → Nat)
+    (doc : List ExecDef) (hne : doc ≠ []) (hwf : ∀ d ∈ doc, WFDefF d) (eof : Option (List Char))
+    (heof : ∀ b ∈ eof, EofComment b) :
+    ∃ A, parseOp (rDocF τ sh sp doc eof) = .ok A ∧ ReadDoc.erasePos A = ReadDoc.erasePos doc :=
+  ⟨_, parseOp_rDocF τ hτ sh sp doc hne hwf eof heof, erase_wpDocF τ sh sp _ doc⟩
+
+/-- the hypotheses are satisfiable: an import first, one between two definitions, a final comment without line break -/
+example : rDocF (fun _ => []) (fun _ => true) (fun _ => 1)
+    [.imp { targets := [some ("F", {})], path := "f" },
+     .op { kind := .query, sel := [.spread "F" {} [] {}] },
+     .imp { targets := [none], path := "g" },
+     .frag { name := "G", cond := "T", sel := [.field none "b" {} [] [] none] }] (some " done".toList) =
+    "# import F from\"f\"{...F}# import *from\"g\"fragment G on T{b}# done".toList := by decide
+
+/-- … and comments that begin with `import` without being import statements are trivia now (`Ws`): `#important`, `# import: …` -/
+example : Ws "#important\n".toList ∧ Ws "#  import: see below\n  ".toList ∧ EofComment " imports are resolved".toList := by
+  have nl : ∀ (b : List Char), (∀ x ∈ b, x ≠ '\n' ∧ x ≠ '\r') → NotImportHead (b.dropWhile (· = ' ')) → ∀ (w : List Char),
+      WsRun w → Ws ('#' :: (b ++ (['\n'] ++ (w ++ [])))) := fun b h1 h2 w hw =>
+    ⟨[], _, rfl, (fun _ h => by cases h), Cms.cons ⟨h1, h2, Or.inl rfl⟩ hw (fun h => by cases h) Cms.nil⟩
+  have hsp : WsRun "  ".toList := by
+    intro x hx
+    have : x = ' ' := by
+      have e : "  ".toList = [' ', ' '] := by decide
+      rw [e] at hx
+      simp only [List.mem_cons, List.not_mem_nil, or_false] at hx
+      rcases hx with rfl | rfl <;> rfl
+    subst this; decide
+  refine ⟨?_, ?_, ?_⟩
+  · exact nl "important".toList (by decide) (Or.inr (Or.inl ⟨'a', "nt".toList, by decide, by decide⟩)) []
+      (fun _ h => by cases h)
+  · exact nl "  import: see below".toList (by decide)
+      (Or.inr (Or.inr ⟨[], ':', " see below".toList, by decide, (fun _ h => by cases h), (fun _ => by decide), by decide,
+        by decide, by decide, by decide⟩)) "  ".toList hsp
+  · exact ⟨by decide, Or.inr (Or.inl ⟨'s', " are resolved".toList, by decide, by decide⟩)⟩
+
 /-! ### type-system definitions and documents
 
 Descriptions are rendered as ordinary (non-block) string values; `implements` lists and union member lists without the
@@ -215,6 +335,36 @@ theorem parse_render_type_system_document_erase (τ : Trivia) (hτ : ∀ q, Ws (
     (hwf : ∀ d ∈ doc, WFTsItem d) (hn : ∀ d ∈ doc, NormalItem d) :
     ∃ A, parseTs (rTsDoc τ doc) = .ok A ∧ GqlTokens.eraseTsDoc A = GqlTokens.eraseTsDoc doc :=
   ⟨_, parseTs_rTsDoc τ hτ doc hne hwf, tsErase_wpTsDoc τ _ doc hn⟩
+
+/-- **`parse_render_type_system_document_full`**: `parse_render_type_system_document` without the one side condition that was
+    a limit of the proof and not of the grammar — the bare `interface I` / `extend interface I` (no interfaces, no
+    directives, no fields; `BareIface`) is a well-formed item too (`WFTsItemF`), wherever it stands, also directly in front
+    of an item that begins with the letter `i` (`interface J`, `input X`): `ImplementsInterfaces?` after the name is shown
+    to fail because the text that follows does not begin with the WORD `implements` (every item of a type-system document
+    begins with a description or with one of the nine keywords scalar, type, interface, union, enum, input, schema,
+    directive, extend). -/
+theorem parse_render_type_system_document_full (τ : Trivia) (hτ : ∀ q, Ws (τ q)) (doc : List TsItem) (hne : doc ≠ [])
+    (hwf : ∀ d ∈ doc, WFTsItemF d) :
+    parseTs (rTsDoc τ doc) = .ok (wpTsDoc τ (rTsDoc τ doc) doc) :=
+  parseTs_rTsDocF τ hτ doc hne hwf
+
+/-- … in the terms of the property: the document returned differs from `doc` only in positions -/
+theorem parse_render_type_system_document_full_erase (τ : Trivia) (hτ : ∀ q, Ws (τ q)) (doc : List TsItem) (hne : doc ≠ [])
+    (hwf : ∀ d ∈ doc, WFTsItemF d) (hn : ∀ d ∈ doc, NormalItem d) :
+    ∃ A, parseTs (rTsDoc τ doc) = .ok A ∧ GqlTokens.eraseTsDoc A = GqlTokens.eraseTsDoc doc :=
+  ⟨_, parseTs_rTsDocF τ hτ doc hne hwf, tsErase_wpTsDoc τ _ doc hn⟩
+
+/-- the hypotheses are satisfiable: bare interface forms in front of `interface`, `input` and at the end -/
+example : rTsDoc (fun _ => [])
+    [.typeDef { kind := .interface, name := "I" }, .typeDef { kind := .interface, name := "J" },
+     .typeDef { kind := .input, name := "X" }, .typeExt { kind := .interface, name := "I" }] =
+    "interface I interface J input X extend interface I".toList := by decide
+
+example : BareIface (.typeDef { kind := .interface, name := "I" }) := by
+  refine ⟨rfl, ?_, rfl, rfl, rfl⟩
+  show validName "I".toList
+  have : "I".toList = ['I'] := by decide
+  rw [this]; exact ⟨by decide, fun x hx => by cases hx⟩
 
 /-- the hypotheses are satisfiable: one type definition of each kind, in canonical trivia -/
 example : rTsDoc (fun _ => [])
